@@ -432,3 +432,20 @@ LEVEL_TEXT = ('Proved for all byte strings and all chunk lists (unbounded): (1) 
               'the model.  VMDK and VHDX verdicts are covered by correspondence + the model-free two-chunking oracle only (partial), with the known findings F1-F4 zoned.')
 LEVEL_NOTE = ('Trusted: Coq kernel; generator tools/gen/gen_insp.py (+py2gal); CPython struct/bytes/str semantics as modelled in Base/Insp_Struct.v, Base/Str.v and tied by the '
               'every-chunk correspondence of all ten inspectors; region_complete callback order (set iteration) modelled as dictionary order. Closed under the global context.')
+
+
+# ---- whole-buffer specifications (vmdk_spec / vhdx_spec) evaluated on generated cases and compared with the
+# implementation's final verdict: ties the SPEC of the refinement theorems to the code.  Wired correspondence-style:
+# a disagreement breaks the correspondence (then the two-chunking oracle searches for a C01 counterexample); a
+# consistent change of the verdict function is not by itself a violation of C01.
+def extra_corr(rng, tier):
+    n = 0; bad = []
+    for modname in ('C01_vmdk_spec', 'C01_vhdx_spec'):
+        try:
+            mod = __import__('props.' + modname, fromlist=['x'])
+        except ImportError:
+            continue
+        for name, c, msg in mod.extra_checks(rng, tier):
+            n += 1
+            if msg: bad.append({'check': name, 'case': c, 'message': msg})
+    return n, bad
